@@ -96,6 +96,10 @@ def run(cx, rep):
                     clearers.add(mname)
                     grew = True
                     break
+    # a method that marks AND writes the definition table is not a storer for the rules below (its call sites carry
+    # no body); it is reported by C16.2 (mark-writes-no-definition)
+    mark_and_store = sorted(markers & storers)
+    storers = storers - markers
     rep.rule("C16.1", "in-progress marks are resolved on every exit, exceptional ones included")
     rep.ob("C16.1", "roles", bool(markers) and bool(storers) and bool(clearers) and storers <= clearers,
            "could not identify mark/store/clear methods of SchemaPrintingContext (mark %s, store %s, clear %s)" % (markers, storers, clearers), mod.loc(spc.node),
@@ -183,6 +187,9 @@ def run(cx, rep):
                     writers.add("%s.%s" % (cname, mname))
                 if n["type"] == "UnaryExpression" and n["operator"] == "delete" and defs_field and ("." + defs_field + "[") in s(n["argument"]):
                     writers.add("%s.%s(delete)" % (cname, mname))
+    rep.ob("C16.2", "mark-writes-no-definition", not mark_and_store,
+           "%s marks a name as in progress AND writes the definition table: from then on hasDefinition(name) holds although no body was printed - when printing fails and the mark is abandoned the placeholder stays, later printers emit a $ref to it instead of printing (or failing), and the export lists a definition nobody stored" % ", ".join("SchemaPrintingContext.%s" % m_ for m_ in mark_and_store),
+           mod.loc(spc.methods[mark_and_store[0]]["function"]) if mark_and_store else mod.loc(spc.node), sample={"methods": mark_and_store})
     rep.ob("C16.2", "single-writer", writers == {"SchemaPrintingContext.%s" % x for x in storers},
            "the definition table is written by %s; only storeDefinition may write it" % sorted(writers), mod.loc(spc.node), sample={"writers": sorted(writers)})
     ex = spc.methods.get("exportDefinitions")
